@@ -71,6 +71,8 @@ func (fr *frame) execInstr(in ssa.Instruction, st *State, reach string, b *ssa.B
 			fr.vals[x] = &Val{lv: lv}
 			if bn := fr.localBuilder(x); bn != "" {
 				u.heapSet(st, bn, "String", "\"\"")
+				u.heapSet(st, bn+"#m", "String", "\"\"")
+				u.heapSet(st, bn+"#s", "String", "\"\"")
 			}
 			return
 		}
@@ -80,6 +82,8 @@ func (fr *frame) execInstr(in ssa.Instruction, st *State, reach string, b *ssa.B
 		fr.vals[x] = &Val{t: ref, lv: lv}
 		if name := fr.localBuilder(x); name != "" {
 			u.heapSet(st, name, "String", "\"\"")
+			u.heapSet(st, name+"#m", "String", "\"\"")
+			u.heapSet(st, name+"#s", "String", "\"\"")
 		}
 	case *ssa.FieldAddr:
 		pv := fr.valOf(x.X)
@@ -453,6 +457,15 @@ func (fr *frame) execUnOp(x *ssa.UnOp, st *State, reach string) {
 		if g, isG := x.X.(*ssa.Global); isG && !fr.pure && !(fr.fn.Synthetic != "" && fr.fn.Name() == "init") {
 			if elems, ok := u.eng.constTable(g); ok {
 				fr.vals[x] = fr.loadConstTable(g, elems, st)
+				return
+			}
+			if ie := u.eng.initOnce(g); ie != nil {
+				nf := u.newFrame(ie.fn, fr.depth+1, false, fr.prefix+funcName(fr.fn)+">")
+				for _, in := range ie.instrs {
+					nf.execInstr(in, st, reach, in.Block())
+				}
+				fr.vals[x] = nf.valOf(ie.val)
+				u.rebinds = append(u.rebinds, fmt.Sprintf("%s: package variable %s read as its initialiser (assigned once, from constants and calls only)", funcName(fr.fn), g.Name()))
 				return
 			}
 		}
@@ -1376,6 +1389,7 @@ func (fr *frame) enterLoop(li *loopInfo, st *State, reach string) *State {
 	// 4. invariants that hold by the shape of the loop
 	before := u.abstracted["auto-invariant:search-loop"]
 	fr.autoCounting(li, entryVal, ns, reach)
+	fr.autoAppendOnly(li, entryVal, st, ns, reach)
 	fr.autoSearched(li, ri, ns, reach)
 	if fr.pendingNewLoop {
 		fr.pendingNewLoop = false
@@ -1385,6 +1399,43 @@ func (fr *frame) enterLoop(li *loopInfo, st *State, reach string) *State {
 				u.newLoopAt = len(u.cmds) + 1
 			}
 			u.newLoops = append(u.newLoops, fmt.Sprintf("%s: loop %d of %s has no invariant (the function has more loops than on the recorded tree)", funcName(u.fn), li.ordinal, funcName(fr.fn)))
+		}
+	}
+	// A loop that carries around an accumulator (slice, string, map) which the recorded version of the function did not
+	// have, and for which nobody can have written an invariant: what fails after it is undecided, like after a new loop.
+	if fr.fn == u.fn || fr.parent != nil {
+		for _, in := range h.Instrs {
+			p, ok := in.(*ssa.Phi)
+			if !ok {
+				break
+			}
+			switch p.Type().Underlying().(type) {
+			case *types.Slice, *types.Map:
+			case *types.Basic:
+				if p.Type().Underlying().(*types.Basic).Info()&types.IsString == 0 {
+					continue
+				}
+			default:
+				continue
+			}
+			if p.Comment == "" || p.Comment == "rangeindex" || !u.eng.newAccumulator(fr.fn, p.Comment) {
+				continue
+			}
+			named := false
+			for _, c := range invs {
+				for _, v := range c.VarLocal {
+					if strings.TrimSuffix(v, "?") == p.Comment {
+						named = true
+					}
+				}
+			}
+			if named {
+				continue
+			}
+			if u.newLoopAt == 0 {
+				u.newLoopAt = len(u.cmds) + 1
+			}
+			u.newLoops = append(u.newLoops, fmt.Sprintf("%s: loop %d of %s carries `%s`, a variable the recorded function did not have (no invariant can exist for it)", funcName(u.fn), li.ordinal, funcName(fr.fn), p.Comment))
 		}
 	}
 	if ri != nil && riLen != "" {
